@@ -228,7 +228,7 @@ class CodeGenerator(nunavut._generators.AbstractGenerator):
     # +-----------------------------------------------------------------------+
     def _handle_overwrite(self, output_path: pathlib.Path, allow_overwrite: bool) -> None:
         if output_path.exists() or output_path.is_symlink():
-            if allow_overwrite and not output_path.is_dir() and not output_path.is_symlink():
+            if allow_overwrite and output_path.is_file() and not output_path.is_symlink():
                 output_path.chmod(output_path.stat().st_mode | 0o220)
             else:
                 raise PermissionError(f"{output_path} exists and is a directory or allow_overwrite is False.")
